@@ -1,6 +1,8 @@
 # C19 — every query terminates after any history
+import os, shutil
 import resource
 import vlib
+from checks.common import *
 from checks.db_common import run_db
 
 META = dict(
@@ -26,8 +28,11 @@ META = dict(
     design_ref="DESIGN.md §5 C19",
     level_note="Trusted: Coq kernel, extraction (ExtrOcamlBasic), OCaml driver, Rust harness/generators, the watchdog's wall clock (2 s quick / 5 s thorough per step; "
                "observed steps take < 10 ms). The map theorems are about the hand-written model OpenMap.v (positions/len as nat: u64 overflow of capacity*15 ignored); "
-               "it is tied to multi_map.rs by reading, by the hang witnesses (model and real database agree on the 64-cycle history and on the fix) and by the "
-               "watchdog runs; slot-level differential correspondence with MultiMapStorage is not implemented. Storage errors (Err paths) are not modelled.",
+               "it is tied to multi_map.rs by the hang witnesses (model and real database agree on the 64-cycle history and on the fix), by the watchdog runs and, "
+               "when hook H1 (agdb::verif::VMultiMap, fixes/H1-multimap-wrapper.diff) is present in /repo, by algorithm-level differential execution: generated "
+               "operation histories on the real MultiMapStorage<u64,u64> with the whole slot array (state, key, value per slot, len, capacity) compared after every "
+               "operation with the extracted OpenMap.v (identity hash, the code's constants); without the hook that part is skipped and reported in the notes. "
+               "Storage errors (Err paths) are not modelled.",
 )
 
 PROFILE = "hash"                        # alias / index insert-remove cycles over many distinct hashed keys
@@ -45,14 +50,90 @@ def _big_stack():
         resource.setrlimit(resource.RLIMIT_STACK, (new, hard))
 
 
+WRAPPER = "pub struct VMultiMap"       # hook H1 (fixes/H1-multimap-wrapper.diff) in /repo/agdb/src/verif.rs
+
+
+def wrapper_present():
+    p = os.path.join(vlib.REPO, "agdb", "src", "verif.rs")
+    return os.path.exists(p) and WRAPPER in open(p, errors="replace").read()
+
+
+def build_omap_driver():
+    """extract coq/theories/OpenMap.v (extract/omap/ExtractOMap.v, ExtrOcamlBasic only) and build its small driver"""
+    ok, out = vlib.coq_make(["theories/OpenMap.vo"])
+    if not ok:
+        return None, out[-3000:]
+    src = os.path.join(vlib.EXTRACT, "omap")
+    files = [os.path.join(src, f) for f in sorted(os.listdir(src))] + [os.path.join(vlib.COQ, "theories", "OpenMap.v")]
+    bdir = os.path.join(vlib.CACHE, "extract-omap")
+    os.makedirs(bdir, exist_ok=True)
+    exe = os.path.join(bdir, "omap_driver-" + vlib.file_hash(files))
+    if os.path.exists(exe):
+        return exe, "cached"
+    for f in os.listdir(src):
+        shutil.copy(os.path.join(src, f), bdir)
+    rc, out = vlib.sh(["coqc", "-Q", os.path.join(vlib.COQ, "theories"), "Agdb", "ExtractOMap.v"], cwd=bdir, timeout=600)
+    if rc != 0:
+        return None, out[-3000:]
+    rc, out2 = vlib.sh(["ocamlfind", "ocamlopt", "-w", "-a", "-o", exe, "omap_model.mli", "omap_model.ml", "omap_driver.ml"], cwd=bdir, timeout=600)
+    if rc != 0:
+        return None, (out + out2)[-3000:]
+    return exe, out + out2
+
+
+def run_omap(ctx):
+    """algorithm-level correspondence: the slot array of the real MultiMapStorage<u64,u64> after every operation
+    of generated histories equals the one of the extracted OpenMap.v model (revision: all three flags on)"""
+    exe, log = build_omap_driver()
+    if exe is None:
+        raise RuntimeError("omap driver build failed: " + log)
+    tdir, blog = vlib.cargo_build("hx_core", "release", features=["h1_multimap"])
+    if tdir is None:
+        raise RuntimeError("harness build (feature h1_multimap) failed: " + blog)
+    w = os.path.join(ctx.workdir, "omap")
+    os.makedirs(w, exist_ok=True)
+    n, steps = (150, 300) if ctx.tier == "quick" else (2500, 500)
+    rc, out = vlib.sh([os.path.join(tdir, "hx_core"), "omap", "--seed", str(ctx.seed), "--n", str(n), "--steps", str(steps), "--out", w], timeout=3000)
+    if rc != 0:
+        raise RuntimeError("omap harness failed: " + out[-2000:])
+    rc, err = run_driver(exe, os.path.join(w, "cases.txt"), os.path.join(w, "model.txt"))
+    cases, model, impl = (read_lines(os.path.join(w, f)) for f in ("cases.txt", "model.txt", "impl.txt"))
+    dis = diff_lines(cases, model, impl, limit=10)
+    for d in dis:
+        try:
+            k = int(d["what"].split()[1])
+            start = max(i for i in range(k + 1) if cases[i].startswith("reset"))
+            d["history"] = [c for c in cases[start:k + 1] if c != "dump"][-80:]
+        except Exception:
+            pass
+    failures = [dict(cls=l.split(" ")[0], what=l[:6000]) for l in read_lines(os.path.join(w, "oracle.txt"))]
+    dist, ev, nt, samples = merge_stats([os.path.join(w, "stats.json")])
+    return dict(cases=len(cases), disagreements=dis, failures=failures, dist=dist, histories=ev, nontrivial=nt, samples=samples)
+
+
 def run(ctx):
     _big_stack()
     n, steps, wd = (40, 400, 2000) if ctx.tier == "quick" else (300, 2000, 5000)
+    notes = []
+    om = None
+    if wrapper_present():
+        om = run_omap(ctx)
+    else:
+        notes.append("algorithm-level correspondence of OpenMap.v with MultiMapStorage skipped: hook H1 (agdb::verif::VMultiMap, "
+                     "fixes/H1-multimap-wrapper.diff) is not in /repo")
     r = run_db(ctx, PROFILE, n, steps, watchdog_ms=wd)
     failures = [f for f in r["failures"] if f["cls"].startswith(CLASSES) or f["cls"] in COMMON]
-    notes = []
     if r.get("partial"):
         notes.append("the watchdog stopped the harness inside a query: partial run, no model comparison")
+    if om is not None:
+        failures += om["failures"]
+        r["disagreements"] = om["disagreements"] + r["disagreements"]
+        r["cases"] += om["cases"]
+        r["nontrivial"] += om["nontrivial"]
+        r["samples"] = r["samples"][:2] + om["samples"][:2]
+        r["dist"].update({"omap:" + k: v for k, v in om["dist"].items()})
+        notes.append("algorithm-level: %d operation histories on the real MultiMapStorage<u64,u64> (VMultiMap), slot array after every operation "
+                     "compared with the extracted OpenMap.v (all three flags on); non-trivial = history that grew beyond 64 and shrank" % om["histories"])
     return dict(
         evaluations=r["cases"], distinct_nontrivial=r["nontrivial"], samples=r["samples"], dist=r["dist"],
         rule="%d generated query histories (profile %s, <= %d steps: alias insert/remove cycles, bulk inserts of 8..90 aliased nodes, bulk alias removal, "
